@@ -121,6 +121,22 @@ def cases_for_invariants(tier):
                      f"insert overwrite directory '{sp[2]}' select c_2 from tb_p{i}_1"]
         prnd.shuffle(stmts)
         out.append({"sql": ";\n".join(stmts), "dialect": d, "metadata": None, "silent": False, "want": ["inv"], "src": "generated:paths"})
+    # UPDATE in its dialect-specific forms: several tables joined before SET (mysql), SET targets qualified by the alias of either table,
+    # the alias-as-target idiom (tsql), targets qualified by the table's own name
+    for i in range(16 if tier == "quick" else 160):
+        forms = [
+            ("mysql", f"update tb_o{i} o join tb_c{i} c on o.k = c.k set o.region = c.region, c.last_region = c.region"),
+            ("mysql", f"update tb_o{i} o join tb_c{i} c on o.k = c.k join sa.tb_d{i} d on d.k = c.k set o.a = d.a, d.b = o.b where c.x > 1"),
+            ("mariadb", f"update tb_o{i} o inner join tb_c{i} c on o.k = c.k set c.total = o.amount"),
+            ("tsql", f"update x set x.c1 = y.c2 from tb_t{i} x join tb_s{i} y on x.k = y.k"),
+            ("tsql", f"update tb_t{i} set tb_t{i}.c1 = y.c2, c3 = y.c4 from tb_s{i} y"),
+            ("postgres", f"update tb_t{i} set c1 = s.c1 from tb_s{i} s where tb_t{i}.k = s.k"),
+            ("ansi", f"update sa.tb_t{i} set c1 = s.c1, c2 = u.c2 from tb_s{i} s, sb.tb_u{i} u"),
+            ("non-validating", f"update tb_o{i} o join tb_c{i} c on o.k = c.k set o.region = c.region, c.last_region = c.region"),
+        ]
+        d, sql = forms[i % len(forms)]
+        follow = prnd.choice(["", f"; insert into tb_z{i} select * from tb_t{i}", f"; insert into tb_z{i} select region, last_region from tb_o{i}", f"; select * from tb_c{i}"])
+        out.append({"sql": sql + follow, "dialect": d, "metadata": None, "silent": False, "want": ["inv"], "src": "generated:update_forms"})
     # metadata variants: expansion and late resolution paths
     md = {"sa.tb_k1": ["c_1", "c_2"], "sb.tb_k2": ["c_1", "k_1"], "zz.o": ["q"]}
     for i, sql in enumerate(_scripts(n // 6, seed + 5)):
